@@ -196,6 +196,17 @@ type world struct {
 	knownStop bool
 	calls     []*apiCall
 	onEmitHook func(p *wirePacket)
+	obsHash   vsimHash
+	obsLog    []string
+	keepObs   bool
+}
+
+// observe records one externally observable event (API call result, emitted packet) for twin comparisons.
+func (w *world) observe(s string) {
+	w.obsHash.addString(s)
+	if w.keepObs && len(w.obsLog) < 20000 {
+		w.obsLog = append(w.obsLog, s)
+	}
 }
 
 // knownClasses: violation classes recorded in known_findings.json as open
@@ -277,6 +288,9 @@ func (w *world) onSend(c *simConn, raw []byte) {
 	w.allPkts = append(w.allPkts, p)
 	w.sim.trace.addBytes(raw)
 	w.sim.trace.addInt(int64(p.at))
+	if w.keepObs {
+		w.observe(fmt.Sprintf("emit %s t=%v %x", []string{"A", "B"}[c.side], p.at, raw))
+	}
 	for _, m := range w.mons {
 		m.onEmit(p)
 	}
@@ -413,6 +427,9 @@ func (w *world) apiEvent(ep *endpoint, op, detail string) {
 	seq := w.nextSeq()
 	w.sim.trace.addString(op)
 	w.sim.trace.addString(detail)
+	if w.keepObs {
+		w.observe(fmt.Sprintf("api %s %s %s t=%v", ep.name, op, detail, w.now()))
+	}
 	if w.verbose != nil {
 		w.verbose(fmt.Sprintf("API #%d t=%v %s %s %s", seq, w.now(), ep.name, op, detail))
 	}
@@ -871,6 +888,8 @@ type runResult struct {
 	NAPI      int               `json:"napi"`
 	Known     map[string]int    `json:"known,omitempty"`
 	Params    map[string]int    `json:"params,omitempty"`
+	ObsHash   string            `json:"obs_hash,omitempty"`
+	obs       []string
 	Extra     map[string]any    `json:"extra,omitempty"`
 }
 
@@ -882,6 +901,7 @@ type runOpts struct {
 	verbose bool
 	debugLog bool
 	keepTapes bool
+	keepObs   bool
 	params  map[string]int // scenario parameters (sweeps, replay overrides)
 }
 
@@ -914,6 +934,7 @@ func runOne(t *testing.T, sc scenario, o runOpts) (res *runResult) {
 			w = &world{t: t, seed: o.seed, prop: o.prop, probes: map[string]int{}}
 			w.t0 = time.Now()
 			w.debugLog = o.debugLog
+			w.keepObs = o.keepObs
 			if o.verbose {
 				w.verbose = func(s string) { trace = append(trace, fmt.Sprintf("[%v] %s", w.now(), s)) }
 			}
@@ -971,6 +992,10 @@ func runOne(t *testing.T, sc scenario, o runOpts) (res *runResult) {
 		res.Config = w.cfg
 		res.NAPI = w.nAPI
 		res.Known = w.knownHits
+		if w.keepObs {
+			res.ObsHash = fmt.Sprintf("%016x", uint64(w.obsHash))
+			res.obs = w.obsLog
+		}
 		if w.wm != nil {
 			if w.extra == nil {
 				w.extra = map[string]any{}
